@@ -101,7 +101,7 @@ func (l *Lexer) NextToken() token.Token {
 		l.skipWhitespace()
 	}
 
-	if l.char == 0 {
+	if l.atEnd() {
 		l.tokenBegins()
 		return l.newToken(token.EOF, "")
 	}
@@ -458,7 +458,7 @@ func (l *Lexer) readString() string {
 
 	pos := l.pos
 
-	for l.char != 0 {
+	for !l.atEnd() {
 		prevChar := l.char
 
 		l.readChar()
@@ -515,7 +515,7 @@ func (l *Lexer) readHTML() string {
 	var out bytes.Buffer
 	l.tokenBegins()
 
-	for l.isHTML && l.char != 0 {
+	for l.isHTML && !l.atEnd() {
 		isDirective, escapedDir := l.isDirectiveToken()
 		areBraces, escapedBraces := l.areBracesToken()
 
@@ -577,6 +577,12 @@ func (l *Lexer) readChar() {
 	l.shouldResetCol = l.char == '\n'
 }
 
+// atEnd tells whether the whole input was read. The character is 0 then,
+// but a 0 byte may as well be part of the input
+func (l *Lexer) atEnd() bool {
+	return l.pos >= len(l.input)
+}
+
 func (l *Lexer) peekChar() byte {
 	if l.readPos >= len(l.input) {
 		return 0
@@ -596,7 +602,7 @@ func (l *Lexer) skipWhitespace() {
 func (l *Lexer) skipComment() bool {
 	l.isHTML = true
 
-	for l.char != 0 {
+	for !l.atEnd() {
 		if !strings.HasPrefix(l.input[l.pos:], "--}}") {
 			l.readChar()
 			continue
